@@ -4,13 +4,14 @@ use crate::header::headers::OneOrMore;
 use crate::header::{ConstNamed, ExtendValues, HeaderParse};
 use crate::parse::ParseCtx;
 use crate::print::PrintCtx;
-use crate::uri::params::{Params, CPS};
+use crate::uri::params::{Params, ParamsSpec, CPS};
 use crate::Name;
 use anyhow::Context;
 use bytesstr::BytesStr;
 use internal::{ws, IResult};
 use nom::bytes::complete::take_while1;
 use nom::combinator::map_res;
+use percent_encoding::percent_encode;
 use std::fmt;
 
 #[derive(Debug, Clone, PartialEq, Eq)]
@@ -53,10 +54,13 @@ impl ExtendValues for Replaces {
 
 impl fmt::Display for Replaces {
     fn fmt(&self, f: &mut fmt::Formatter<'_>) -> fmt::Result {
+        // the tags are read back through `Params`, which percent-decodes them
         write!(
             f,
             "{};from-tag={};to-tag={}",
-            self.call_id, self.from_tag, self.to_tag
+            self.call_id,
+            percent_encode(self.from_tag.as_bytes(), CPS::ENCODE_SET()),
+            percent_encode(self.to_tag.as_bytes(), CPS::ENCODE_SET())
         )?;
 
         if self.early_only {
